@@ -320,6 +320,7 @@ def execute_confine(case):
             # that were running when the request arrived
             running0 = set(p_.pid for p_ in k.procs.values()
                            if p_.state == 'running')
+            kids0 = dict((p, list(desc(p, False))) for p in tworkers)
             req = w.request(cmd, props)
             # kill() calls that succeeded (ESRCH attempts are not sends)
             sync = [e for e in k.signal_log[n0:] if e["state"] != 'gone']
@@ -368,6 +369,29 @@ def execute_confine(case):
                         'C18:addressed-set:%s' % _shape(msg),
                         'signal %r: signals sent %r, addressed set is %r' % (
                             props, got, want)))
+            # (2b) kill on a stop_children watcher: "that worker's children
+            # when asked" - the named signal reaches the direct children of
+            # every addressed worker as well
+            if cmd == 'kill' and num and pristine and not in_flight and \
+                    rep.get("status") == "ok" and case["stop_children"] and \
+                    target_name.upper() == 'A' and \
+                    not isinstance(pidv, str):
+                base = ([pidv] if pidv in tworkers else []) \
+                    if 'pid' in props else list(tworkers)
+                sent = set((e["pid"], e["sig"]) for e in allsig
+                           if e["state"] != 'gone')
+                missed = [c for p in base if p in running0
+                          for c in kids0.get(p, [])
+                          if c in running0 and (c, num) not in sent]
+                if base:
+                    classes.add('kill-with-stop_children')
+                if missed:
+                    viols.append(Violation(
+                        'C18:kill:children-missed',
+                        'kill %r on a stop_children watcher: the children '
+                        '%r of the addressed workers %r never got signal '
+                        '%d (sent: %r)' % (props, missed, base, num,
+                                           sorted(sent))))
             if expect is not None and rep.get("status") == "error" and sync:
                 viols.append(Violation(
                     'C18:error-reply-but-signal-sent',
